@@ -1,0 +1,18 @@
+//go:build verif
+// +build verif
+
+package bluge
+
+import "github.com/blugelabs/bluge/index"
+
+// VerifSnapshot exposes the index snapshot behind this Reader
+// (verification hook, only built with -tags verif).
+func (r *Reader) VerifSnapshot() *index.Snapshot {
+	return r.reader
+}
+
+// VerifIndexWriter exposes the index writer behind this Writer
+// (verification hook, only built with -tags verif).
+func (w *Writer) VerifIndexWriter() *index.Writer {
+	return w.chill
+}
